@@ -28,13 +28,16 @@ from datetime import timedelta
 import numpy as np
 
 from acnportal.acnsim.network.current import Current
+from acnportal.acnsim.simulator import Simulator
+from acnportal.acnsim.events import Event, EventQueue, PluginEvent, RecomputeEvent
 
 from core import simcase as S
 from core import impl as I
 from core.common import b2f, f2b, close
 
 ID = "C05"
-LEAN_MODULES = ["AcnProofs.C05", "AcnProofs.Lemmas.CodeTieSim"]
+LEAN_MODULES = ["AcnProofs.C05"]
+TIE_MODULES = ["AcnProofs.Lemmas.CodeTieSim"]
 DRIVER = "drv_C05"
 REQUIRED_THEOREMS = [
     "Acn.C05.head_init", "Acn.C05.lastUpd_after_events", "Acn.C05.lastUpd_at_head", "Acn.C05.run_is_trace",
@@ -100,7 +103,7 @@ def _infra_rec(info):
             "is_continuous": [bool(x) for x in np.asarray(info.is_continuous).tolist()]}
 
 
-def _truth(sim, ctx):
+def _truth(sim, ctx, light=False):
     """Ground truth read directly from the simulator / network objects (never through the Interface)."""
     net = sim.network
     t = int(sim._iteration)
@@ -142,7 +145,7 @@ def _truth(sim, ctx):
                         "is_continuous": [bool(e.is_continuous) for e in evses]}
     else:
         out["infra"] = None
-    tar = (sim.signals or {}).get("tariff")
+    tar = None if light else (sim.signals or {}).get("tariff")
     if tar is not None:
         try:
             out["prices"] = [_f(x) for x in tar.get_tariffs(sim.start + timedelta(minutes=sim.period) * t, 3, sim.period)]
@@ -159,9 +162,12 @@ def _truth(sim, ctx):
     return out
 
 
-def _record(algo, iface, sessions, sim, ctx):
+def _record(algo, iface, sessions, sim, ctx, light=False):
+    """Everything a scheduler can see through the Interface at this moment + the ground truth of the same
+    moment.  light=True (the RE-QUERY at the end of an invocation, after the vandal has been at work): the
+    dynamic part and the InfrastructureInfo only."""
     rec = {"t": int(iface.current_time), "datetime": iface.current_datetime.isoformat(),
-           "sessions": [_sess_rec(s) for s in sessions],
+           "sessions": [_sess_rec(s) for s in (iface.active_sessions() if sessions is None else sessions)],
            "sessions_again": [_sess_rec(s) for s in iface.active_sessions()],
            "last_pilots": {k: _f(v) for k, v in iface.last_applied_pilot_signals.items()},
            "last_rates": {k: _f(v) for k, v in iface.last_actual_charging_rate.items()},
@@ -174,13 +180,21 @@ def _record(algo, iface, sessions, sim, ctx):
                           "rate": _f(e.current_charging_rate), "arrival": int(e.arrival), "departure": int(e.departure),
                           "requested": _f(e.requested_energy)} for e in evs]
     rec["amp_periods"] = None
+    if light:
+        try:
+            rec["infra"] = _infra_rec(iface.infrastructure_info())
+        except AttributeError as e:
+            rec["infra"] = None
+            rec["infra_err"] = type(e).__name__
+        rec["truth"] = _truth(sim, ctx, light=True)
+        return rec
     try:
         info = iface.infrastructure_info()
         rec["infra"] = _infra_rec(info)
         rec["getters"] = [{"id": st, "allowable": [bool(iface.allowable_pilot_signals(st)[0]), _lst(iface.allowable_pilot_signals(st)[1])],
                            "max": _f(iface.max_pilot_signal(st)), "min": _f(iface.min_pilot_signal(st)),
                            "V": _f(iface.evse_voltage(st)), "phase": _f(iface.evse_phase(st))} for st in info.station_ids]
-        rec["amp_periods"] = [_f(iface.remaining_amp_periods(s)) for s in sessions]
+        rec["amp_periods"] = [_f(iface.remaining_amp_periods(s)) for s in (sessions if sessions is not None else iface.active_sessions())]
     except AttributeError as e:        # (was defect F3 on constraint-free networks; judged as infra_wrong now)
         rec["infra"] = None
         rec["infra_err"] = type(e).__name__
@@ -363,34 +377,151 @@ class GuardNet(S.SnapshotNetwork):
             raise Runaway(f"still running in period {len(self.occ_log)}")
 
 
-def _bound(case):
-    ts = [0] + [s["arrival"] for s in case["sessions"]] + [s["departure"] for s in case["sessions"]] + \
+KNOWN_TYPES = ("Plugin", "Unplug", "Recompute")
+
+
+class MarkerEvent(Event):
+    """A user-defined event class the simulator has no handler for (the documented way to extend acnsim is
+    to subclass Event): own event_type; the base class' precedence (inf: last of its period) unless given."""
+
+    def __init__(self, timestamp, event_type="TariffChange", precedence=None):
+        super().__init__(timestamp)
+        self.event_type = event_type
+        if precedence is not None:
+            self.precedence = precedence
+
+
+def _make_other(o):
+    """case["others"] entry {"t": ts, "kind": "base" | "sub" | "prec", ["prec": p], "when": "ctor" | "added"}"""
+    if o["kind"] == "base":
+        return Event(int(o["t"]))                    # event_type "", precedence inf
+    if o["kind"] == "sub":
+        return MarkerEvent(int(o["t"]))
+    return MarkerEvent(int(o["t"]), "Maintenance", float(I.num(o["prec"])))
+
+
+def _others(case):
+    return case.get("others") or []
+
+
+def _splits(case):
+    return sorted(int(x) for x in (case.get("splits") or []))
+
+
+def _stage_of(case, ts):
+    """stage 0 = the queue the Simulator is constructed with; the events with timestamp >= splits[k-1] are
+    withheld and handed to `event_queue.add_events` after the k-th run() has returned"""
+    return sum(1 for T in _splits(case) if T <= ts)
+
+
+def _known_ts(case, with_others=False):
+    ts = [s["arrival"] for s in case["sessions"]] + [s["departure"] for s in case["sessions"]] + \
         [int(r) for r in case.get("recomputes", [])]
-    return max(ts) + 6
+    if with_others:
+        ts += [int(o["t"]) for o in _others(case)]
+    return ts
+
+
+def _stage_horizons(case):
+    """iteration at which the k-th run() returns when nothing raises, for a well-formed staging: one past
+    the largest timestamp (departures included) of the stages <= k"""
+    out = []
+    for k in range(len(_splits(case)) + 1):
+        ts = [s["arrival"] for s in case["sessions"] if _stage_of(case, s["arrival"]) <= k] + \
+             [s["departure"] for s in case["sessions"] if _stage_of(case, s["arrival"]) <= k] + \
+             [int(r) for r in case.get("recomputes", []) if _stage_of(case, int(r)) <= k] + \
+             [int(o["t"]) for o in _others(case) if _stage_of(case, int(o["t"])) <= k]
+        out.append(max(ts) + 1 if ts else 0)
+    return out
+
+
+def staging_ok(case):
+    """every withheld event lies at or after the period in which the run before it stops — then the staged
+    history is, period by period, the history of the same events handed over at once"""
+    hs = _stage_horizons(case)
+    return all(h <= T for h, T in zip(hs, _splits(case)))
+
+
+def is_valid(case):
+    """`Valid` of the theorems + C05's extra dimensions well-formed (ignored events not late, staging_ok)"""
+    return S.is_valid_layout(case) and all(int(o["t"]) >= 0 for o in _others(case)) and staging_ok(case)
+
+
+def _bound(case):
+    return max([0] + _known_ts(case, with_others=True)) + 6
+
+
+def _build(case, hooks):
+    """simcase.build_sim + C05's extra dimensions: ignored-type events (constructor queue or add_event right
+    after construction) and events withheld for a later run() (returned per stage, queue insertion order)."""
+    net = (hooks.network_cls or S.SnapshotNetwork)()
+    for st in case["stations"]:
+        net.register_evse(I.make_evse(st["kind"], st["id"]), I.num(st["V"]), I.num(st.get("phase", 0)))
+    con = case.get("constraint")
+    if con:
+        net.add_constraint(Current([st["id"] for st in case["stations"]]), I.num(con["limit"]), name="agg")
+    evs = [I.make_ev(s) for s in case["sessions"]]
+    n = len(_splits(case)) + 1
+    staged = [[] for _ in range(n)]
+    for ev in evs:
+        staged[_stage_of(case, ev.arrival)].append(PluginEvent(ev.arrival, ev))
+    for r in case.get("recomputes", []):
+        staged[_stage_of(case, int(r))].append(RecomputeEvent(int(r)))
+    added0 = []
+    for o in _others(case):
+        k = _stage_of(case, int(o["t"]))
+        (added0 if (k == 0 and o.get("when") == "added") else staged[k]).append(_make_other(o))
+    algo = S.make_scheduler(case, hooks)
+    sim = Simulator(net, algo, EventQueue(staged[0]), S.START, period=I.num(case["period"]), verbose=False)
+    for e in added0:
+        sim.event_queue.add_event(e)
+    return sim, {"network": net, "scheduler": algo, "evs": evs, "hooks": hooks}, staged[1:]
 
 
 def _one_run(case, vandal):
     views = []
+    outside = []
     box = {}
+
+    def rewound(f):
+        # the vandal charges EV *copies*; with a noisy battery that calls numpy.random.normal, the
+        # process-wide random stream, which is not an object the scheduler was handed: rewind it
+        k0 = box["ns"]["k"]
+        try:
+            return f()
+        finally:
+            box["ns"]["k"] = k0
 
     def before(algo, iface, sessions):
         views.append(_record(algo, iface, sessions, box["sim"], box["ctx"]))
 
     def after(algo, iface, sessions, schedule):
-        if vandal:
-            # the vandal charges EV *copies*; with a noisy battery that calls numpy.random.normal, the
-            # process-wide random stream, which is not an object the scheduler was handed: rewind it
-            k0 = box["ns"]["k"]
-            try:
-                return _vandalise(algo, iface, sessions, schedule)
-            finally:
-                box["ns"]["k"] = k0
-        return None
+        r = rewound(lambda: _vandalise(algo, iface, sessions, schedule)) if vandal else None
+        # the same questions asked AGAIN before schedule() returns (after the vandal, if there is one)
+        views[-1]["requery"] = _record(algo, iface, None, box["sim"], box["ctx"], light=True)
+        return r
+
+    def ask_outside(when):
+        """an Interface query made OUTSIDE schedule(): before run(), between two run()s, after the last one"""
+        sim = box["sim"]
+        iface = sim.scheduler.interface
+        try:
+            with warnings.catch_warnings():
+                warnings.simplefilter("ignore")
+                sess = iface.active_sessions()
+                rec = _record(None, iface, sess, sim, box["ctx"])
+                if vandal:
+                    rewound(lambda: _vandalise(None, iface, sess, None))
+                rec["requery"] = _record(None, iface, None, sim, box["ctx"], light=True)
+        except Exception as e:  # noqa: BLE001  (malformed layouts: a SessionInfo guard)
+            rec = {"error": S.err_name(e)}
+        rec["when"] = when
+        outside.append(rec)
 
     hooks = S.Hooks(before=before, after=after, network_cls=GuardNet)
     with S.noise_stream(case.get("noise", [])) as ns:
         box["ns"] = ns
-        sim, ctx = S.build_sim(case, hooks)
+        sim, ctx, later = _build(case, hooks)
         ctx["network"].limit = _bound(case)
         for c in case.get("extra_constraints", []):
             with warnings.catch_warnings():
@@ -402,11 +533,25 @@ def _one_run(case, vandal):
             sim.signals = {"tariff": TimeOfUseTariff("sce_tou_ev_4_march_2019")}
         except Exception:  # noqa: BLE001
             pass
+        if case.get("pre_query"):
+            ask_outside("pre")
         err = S.run_sim(sim)
+        stops = [int(sim.iteration)]
+        for k, events in enumerate(later):
+            if err is not None:
+                break
+            ask_outside(f"between:{k}")
+            sim.event_queue.add_events(events)
+            err = S.run_sim(sim)
+            stops.append(int(sim.iteration))
+        if err is None and (case.get("pre_query") or later):
+            ask_outside("post")
         obs = S.observe(sim, ctx, err)
         obs["noise_draws"] = ns["k"]
         obs["final_infra"] = _truth(sim, ctx)["infra"]
     obs["views"] = views
+    obs["outside"] = outside
+    obs["stops"] = stops
     return obs
 
 
@@ -423,7 +568,31 @@ def run_impl(case):
     return obs
 
 
-def model_request(case):
+def model_mode(case, obs=None):
+    """How the Lean model speaks about a case:
+      "sim"   the full simulator model on the case itself (no ignored events, one run());
+      "union" the same model on the history WITHOUT the ignored-type events, all events handed over at once:
+              exact (every compared observable) when the staging is well-formed, no ignored event lies after the
+              last event the simulator reacts to, and nothing raised (an abort freezes widths / the pending list
+              in a state that depends on what was queued);
+      None    oracle only (real algorithms; run-extending ignored events; late staging; aborted staged runs)."""
+    if not S.is_modelled(case):
+        return None
+    if not _others(case) and not _splits(case):
+        return "sim"
+    if obs is not None and obs.get("err") is not None:
+        return None
+    if not staging_ok(case):
+        return None
+    known = _known_ts(case)
+    if any(int(o["t"]) > max(known + [-10 ** 9]) for o in _others(case)) or (not known and _others(case)):
+        return None
+    return "union"
+
+
+def model_request(case, obs=None):
+    if model_mode(case, obs) is None:
+        return None
     req = S.model_request(case)
     if req is not None:
         req["net"] = {"phases": [f2b(float(I.num(st.get("phase", 0)))) for st in case["stations"]],
@@ -441,7 +610,12 @@ def _num(x):
 
 
 def compare(case, obs, model):
-    diffs = S.compare(case, {k: v for k, v in obs.items() if k not in ("views", "clean", "final_infra")}, model)
+    o2 = {k: v for k, v in obs.items() if k not in ("views", "clean", "final_infra", "outside", "stops")}
+    if _others(case):
+        # the model was given the history without the ignored-type events (model_mode "union")
+        o2["event_history"] = [e for e in obs["event_history"] if e[1] in KNOWN_TYPES]
+        o2["pending"] = [e for e in obs["pending"] if e[1] in KNOWN_TYPES]
+    diffs = S.compare(case, o2, model)
     mv = model.get("views", [])
     iv = obs["views"]
     if [v["t"] for v in iv] != [v["t"] for v in mv]:
@@ -568,12 +742,111 @@ def _same(a, b):
     return _eqnum(a, b)
 
 
+def _view_checks(case, v, exp_infra, fails, where="", inside=True):
+    """one recorded answer of the Interface == the ground truth of the same moment (and == what the network
+    was built with).  inside: recorded within schedule() — then this period's events must have been applied."""
+    tr = v["truth"]
+    t = v["t"]
+    if tr["t"] != t:
+        fails.append({"kind": "view_mismatch:current_time", "detail": f"{where}current_time {t}, simulator iteration {tr['t']}"})
+    if inside:
+        # (events added LATE to a resumed simulation: a plug-in processed after its departure time queues an
+        #  unplug event that is already due and waits for the next period — not a well-formed history)
+        if tr["queue_min"] is not None and tr["queue_min"] <= t and staging_ok(case):
+            fails.append({"kind": "before_events", "detail": f"period {t}: scheduler called while an event with timestamp {tr['queue_min']} was still queued"})
+        if tr["hist_max"] is not None and tr["hist_max"] > t:
+            fails.append({"kind": "before_events", "detail": f"period {t}: an event with timestamp {tr['hist_max']} already processed"})
+    if v["datetime"] != tr["datetime"] or v["datetime"] != (S.START + timedelta(minutes=float(I.num(case["period"]))) * t).isoformat():
+        fails.append({"kind": "view_mismatch:datetime", "detail": f"{where}period {t}: current_datetime {v['datetime']}, truth {tr['datetime']}"})
+    for name in ("sessions", "sessions_again"):
+        if not _same(v[name], tr["sessions"]):
+            fails.append({"kind": "view_mismatch:sessions", "detail": f"{where}period {t} {name}: handed {v[name]} truth {tr['sessions']}"})
+    ev_proj = [{k: s[k] for k in ("session", "station", "delivered", "arrival", "departure", "requested")} for s in tr["sessions"]]
+    got_proj = [{k: s[k] for k in ("session", "station", "delivered", "arrival", "departure", "requested")} for s in v["active_evs"]]
+    if not _same(got_proj, ev_proj):
+        fails.append({"kind": "view_mismatch:active_evs", "detail": f"{where}period {t}: active_evs {got_proj} truth {ev_proj}"})
+    ev_rates = {s["session"]: s["rate"] for s in v["active_evs"]}
+    if not _same(ev_rates, tr["last_rates"]):
+        fails.append({"kind": "view_mismatch:active_evs", "detail": f"{where}period {t}: current_charging_rate of the active_evs copies {ev_rates} truth {tr['last_rates']}"})
+    if not _same(v["last_pilots"], tr["last_pilots"]):
+        fails.append({"kind": "view_mismatch:last_pilots", "detail": f"{where}period {t}: last_applied_pilot_signals {v['last_pilots']} truth {tr['last_pilots']}"})
+    if t - 1 <= 0 and v["last_pilots"]:
+        fails.append({"kind": "view_mismatch:last_pilots", "detail": f"{where}period {t}: non-empty {v['last_pilots']} although iteration-1 <= 0"})
+    if not _same(v["last_rates"], tr["last_rates"]):
+        fails.append({"kind": "view_mismatch:last_rates", "detail": f"{where}period {t}: last_actual_charging_rate {v['last_rates']} truth {tr['last_rates']}"})
+    if not _eqnum(v["peak"], tr["peak"]):
+        fails.append({"kind": "view_mismatch:peak", "detail": f"{where}period {t}: get_prev_peak {v['peak']} truth {tr['peak']}"})
+    if v["max_recompute"] != case.get("max_recompute") or not _eqnum(v["period"], _f(I.num(case["period"]))):
+        fails.append({"kind": "view_mismatch:static", "detail": f"{where}period {t}: max_recompute_time {v['max_recompute']} period {v['period']}"})
+    if "prices" in tr and not _same(v.get("prices"), tr["prices"]):
+        fails.append({"kind": "view_mismatch:prices", "detail": f"{where}period {t}: get_prices {v.get('prices')} truth {tr['prices']}"})
+    if "prices0" in tr and not _same(v.get("prices0"), tr["prices0"]):
+        fails.append({"kind": "view_mismatch:prices", "detail": f"{where}period {t}: get_prices(2, 0) {v.get('prices0')} truth {tr['prices0']}"})
+    if "demand_charge" in tr and not _same(v.get("demand_charge"), tr["demand_charge"]):
+        fails.append({"kind": "view_mismatch:prices", "detail": f"{where}period {t}: get_demand_charge {v.get('demand_charge')} truth {tr['demand_charge']}"})
+    if v["infra"] is not None:
+        if not _same(v["infra"], tr["infra"]):
+            fails.append({"kind": "view_mismatch:infra", "detail": f"{where}period {t}: infrastructure_info {v['infra']} network {tr['infra']}"})
+        for k, want in exp_infra.items():
+            if want is not None and not _same(v["infra"][k], want):
+                fails.append({"kind": "infra_wrong", "detail": f"{where}period {t}: {k} = {v['infra'][k]}, the network was built with {want}"})
+                break
+        for k, g in enumerate(v.get("getters", [])):
+            want = {"id": exp_infra["station_ids"][k], "allowable": [exp_infra["is_continuous"][k], exp_infra["allowable"][k]],
+                    "max": exp_infra["max_pilot"][k], "min": exp_infra["min_pilot"][k], "V": exp_infra["voltages"][k],
+                    "phase": exp_infra["phases"][k]}
+            if not _same(g, want):
+                fails.append({"kind": "infra_wrong", "detail": f"{where}period {t}: per-station getters {g}, built with {want}"})
+                break
+        if v.get("amp_periods") is not None and [s["session"] for s in tr["sessions"]] == [s["session"] for s in v["sessions"]]:
+            for s, ap in zip(tr["sessions"], v["amp_periods"]):
+                V = next(float(I.num(st["V"])) for st in case["stations"] if st["id"] == s["station"])
+                want = _num(s["remaining_demand"]) * 1000 / V * 60 / float(I.num(case["period"]))
+                if not close(_num(ap), want):
+                    fails.append({"kind": "view_mismatch:amp_periods", "detail": f"{where}period {t} session {s['session']}: remaining_amp_periods {ap}, expected {want}"})
+    else:
+        fails.append({"kind": "infra_wrong", "detail": f"{where}period {t}: infrastructure_info() raised {v.get('infra_err')}"})
+
+
+def _requery_checks(case, v, exp_infra, fails, where=""):
+    """The Interface asked AGAIN before schedule() returns (after the vandal rewrote everything it had been
+    handed, in the vandalised run): the same answers — i.e. still the ground truth, which did not move."""
+    rq = v.get("requery")
+    if rq is None:
+        return
+    t = v["t"]
+    tr = v["truth"]
+    tr2 = rq["truth"]
+    moved = [k for k in tr2 if not _same(S_json(tr2[k]), S_json(tr.get(k)))]
+    if moved:
+        fails.append({"kind": "isolation_broken", "detail": f"{where}period {t}: simulator state changed DURING the invocation: {moved[0]} "
+                      f"{_short(tr.get(moved[0]))} -> {_short(tr2[moved[0]])}"})
+    if rq["t"] != t or rq["datetime"] != v["datetime"]:
+        fails.append({"kind": "view_mismatch:current_time", "detail": f"{where}period {t}: asked again: current_time {rq['t']} {rq['datetime']}"})
+    for name in ("sessions", "sessions_again"):
+        if not _same(rq[name], tr["sessions"]):
+            fails.append({"kind": "view_mismatch:sessions", "detail": f"{where}period {t}: active_sessions() asked again within the invocation {rq[name]} truth {tr['sessions']}"})
+            break
+    keys = ("session", "station", "delivered", "arrival", "departure", "requested")
+    if not _same([{k: s[k] for k in keys} for s in rq["active_evs"]], [{k: s[k] for k in keys} for s in tr["sessions"]]) or \
+            not _same({s["session"]: s["rate"] for s in rq["active_evs"]}, tr["last_rates"]):
+        fails.append({"kind": "view_mismatch:active_evs", "detail": f"{where}period {t}: active_evs asked again within the invocation {rq['active_evs']} truth {tr['sessions']} rates {tr['last_rates']}"})
+    if not _same(rq["last_pilots"], tr["last_pilots"]):
+        fails.append({"kind": "view_mismatch:last_pilots", "detail": f"{where}period {t}: last_applied_pilot_signals asked again {rq['last_pilots']} truth {tr['last_pilots']}"})
+    if not _same(rq["last_rates"], tr["last_rates"]):
+        fails.append({"kind": "view_mismatch:last_rates", "detail": f"{where}period {t}: last_actual_charging_rate asked again {rq['last_rates']} truth {tr['last_rates']}"})
+    if not _eqnum(rq["peak"], tr["peak"]):
+        fails.append({"kind": "view_mismatch:peak", "detail": f"{where}period {t}: get_prev_peak asked again {rq['peak']} truth {tr['peak']}"})
+    if rq["infra"] is None or not _same(rq["infra"], tr["infra"]) or any(w is not None and not _same(rq["infra"][k], w) for k, w in exp_infra.items()):
+        fails.append({"kind": "view_mismatch:infra", "detail": f"{where}period {t}: infrastructure_info() asked again {_short(rq['infra'])} network {_short(tr['infra'])}"})
+
+
 def oracle(case, obs):
     fails = []
     views = obs["views"]
     clean = obs["clean"]
     inv = obs["invoked"]
-    valid = S.is_valid_layout(case)
+    valid = is_valid(case)
     vts = [v["t"] for v in views]
 
     if obs["err"] == "Other:Runaway":
@@ -585,80 +858,56 @@ def oracle(case, obs):
     if any(b <= a for a, b in zip(vts, vts[1:])) or any(t not in inv for t in vts):
         fails.append({"kind": "invoked_twice", "detail": f"schedule() periods {vts}, run() periods {inv}"})
 
-    # --- the set of invocation periods (valid layouts; up to the period in which run() raised, if it did)
+    # --- the set of invocation periods (valid layouts; up to the period in which run() raised, if it did).
+    #     Events of a type the simulator does not react to keep the loop going up to their timestamp and are
+    #     recorded in event_history, but are no reason for an invocation; a history handed over in stages is
+    #     the history of the same events handed over at once.
     if valid:
-        ts = [s["departure"] for s in case["sessions"]] + [int(r) for r in case.get("recomputes", [])]
+        ts = [s["departure"] for s in case["sessions"]] + [int(r) for r in case.get("recomputes", [])] + [int(o["t"]) for o in _others(case)]
         full = (max(ts) + 1) if ts else 0
         if obs["err"] is None:
             exp = expected_invocations(case, full)
             if obs["iter"] != full or inv != exp:
-                fails.append({"kind": "invocation_set", "detail": f"invoked {inv} (final iteration {obs['iter']}), required {exp} over {full} periods, max_recompute={case.get('max_recompute')}"})
+                fails.append({"kind": "invocation_set", "detail": f"invoked {inv} (final iteration {obs['iter']}), required {exp} over {full} periods, max_recompute={case.get('max_recompute')}"
+                              + (f", ignored-type events at {sorted(int(o['t']) for o in _others(case))}" if _others(case) else "")
+                              + (f", events from {_splits(case)} on added after the previous run() returned" if _splits(case) else "")})
             if vts != inv:
                 fails.append({"kind": "invocation_set", "detail": f"schedule() entered in {vts}, scheduler.run() called in {inv}"})
+            if obs.get("stops") != _stage_horizons(case):
+                fails.append({"kind": "invocation_set", "detail": f"the run() calls returned at iterations {obs.get('stops')}, last timestamp + 1 of the events handed over so far: {_stage_horizons(case)}"})
+            seen_other = sorted(e[0] for e in obs["event_history"] if e[1] not in KNOWN_TYPES)
+            if seen_other != sorted(int(o["t"]) for o in _others(case)):
+                fails.append({"kind": "event_history", "detail": f"ignored-type events in event_history {seen_other}, queued {sorted(int(o['t']) for o in _others(case))}"})
         elif obs["err"] in SCHED_ERRORS or obs["err"] == "ValueError":
             p = obs["iter"]
             exp = expected_invocations(case, min(p + 1, full))
             if [t for t in inv if t < p] != [t for t in exp if t < p] or (p in inv and p not in exp):
                 fails.append({"kind": "invocation_set", "detail": f"run() raised {obs['err']} in period {p}: invoked {inv}, required {exp}"})
 
-    # --- each view: after the period's events, equal to the ground truth at that moment
+    # --- each view: after the period's events, equal to the ground truth at that moment; asked again: the same
     exp_infra = expected_infra(case)
     for v in views:
-        tr = v["truth"]
-        t = v["t"]
-        if tr["t"] != t:
-            fails.append({"kind": "view_mismatch:current_time", "detail": f"current_time {t}, simulator iteration {tr['t']}"})
-        if tr["queue_min"] is not None and tr["queue_min"] <= t:
-            fails.append({"kind": "before_events", "detail": f"period {t}: scheduler called while an event with timestamp {tr['queue_min']} was still queued"})
-        if tr["hist_max"] is not None and tr["hist_max"] > t:
-            fails.append({"kind": "before_events", "detail": f"period {t}: an event with timestamp {tr['hist_max']} already processed"})
-        if v["datetime"] != tr["datetime"] or v["datetime"] != (S.START + timedelta(minutes=float(I.num(case["period"]))) * t).isoformat():
-            fails.append({"kind": "view_mismatch:datetime", "detail": f"period {t}: current_datetime {v['datetime']}, truth {tr['datetime']}"})
-        for name in ("sessions", "sessions_again"):
-            if not _same(v[name], tr["sessions"]):
-                fails.append({"kind": "view_mismatch:sessions", "detail": f"period {t} {name}: handed {v[name]} truth {tr['sessions']}"})
-        ev_proj = [{k: s[k] for k in ("session", "station", "delivered", "arrival", "departure", "requested")} for s in tr["sessions"]]
-        got_proj = [{k: s[k] for k in ("session", "station", "delivered", "arrival", "departure", "requested")} for s in v["active_evs"]]
-        if not _same(got_proj, ev_proj):
-            fails.append({"kind": "view_mismatch:active_evs", "detail": f"period {t}: active_evs {got_proj} truth {ev_proj}"})
-        if not _same(v["last_pilots"], tr["last_pilots"]):
-            fails.append({"kind": "view_mismatch:last_pilots", "detail": f"period {t}: last_applied_pilot_signals {v['last_pilots']} truth {tr['last_pilots']}"})
-        if t - 1 <= 0 and v["last_pilots"]:
-            fails.append({"kind": "view_mismatch:last_pilots", "detail": f"period {t}: non-empty {v['last_pilots']} although iteration-1 <= 0"})
-        if not _same(v["last_rates"], tr["last_rates"]):
-            fails.append({"kind": "view_mismatch:last_rates", "detail": f"period {t}: last_actual_charging_rate {v['last_rates']} truth {tr['last_rates']}"})
-        if not _eqnum(v["peak"], tr["peak"]):
-            fails.append({"kind": "view_mismatch:peak", "detail": f"period {t}: get_prev_peak {v['peak']} truth {tr['peak']}"})
-        if v["max_recompute"] != case.get("max_recompute") or not _eqnum(v["period"], _f(I.num(case["period"]))):
-            fails.append({"kind": "view_mismatch:static", "detail": f"period {t}: max_recompute_time {v['max_recompute']} period {v['period']}"})
-        if "prices" in tr and not _same(v["prices"], tr["prices"]):
-            fails.append({"kind": "view_mismatch:prices", "detail": f"period {t}: get_prices {v['prices']} truth {tr['prices']}"})
-        if "prices0" in tr and not _same(v.get("prices0"), tr["prices0"]):
-            fails.append({"kind": "view_mismatch:prices", "detail": f"period {t}: get_prices(2, 0) {v.get('prices0')} truth {tr['prices0']}"})
-        if "demand_charge" in tr and not _same(v.get("demand_charge"), tr["demand_charge"]):
-            fails.append({"kind": "view_mismatch:prices", "detail": f"period {t}: get_demand_charge {v.get('demand_charge')} truth {tr['demand_charge']}"})
-        if v["infra"] is not None:
-            if not _same(v["infra"], tr["infra"]):
-                fails.append({"kind": "view_mismatch:infra", "detail": f"period {t}: infrastructure_info {v['infra']} network {tr['infra']}"})
-            for k, want in exp_infra.items():
-                if want is not None and not _same(v["infra"][k], want):
-                    fails.append({"kind": "infra_wrong", "detail": f"period {t}: {k} = {v['infra'][k]}, the network was built with {want}"})
-                    break
-            for k, g in enumerate(v.get("getters", [])):
-                want = {"id": exp_infra["station_ids"][k], "allowable": [exp_infra["is_continuous"][k], exp_infra["allowable"][k]],
-                        "max": exp_infra["max_pilot"][k], "min": exp_infra["min_pilot"][k], "V": exp_infra["voltages"][k],
-                        "phase": exp_infra["phases"][k]}
-                if not _same(g, want):
-                    fails.append({"kind": "infra_wrong", "detail": f"period {t}: per-station getters {g}, built with {want}"})
-                    break
-            if v.get("amp_periods") is not None and [s["session"] for s in tr["sessions"]] == [s["session"] for s in v["sessions"]]:
-                for s, ap in zip(tr["sessions"], v["amp_periods"]):
-                    V = next(float(I.num(st["V"])) for st in case["stations"] if st["id"] == s["station"])
-                    want = _num(s["remaining_demand"]) * 1000 / V * 60 / float(I.num(case["period"]))
-                    if not close(_num(ap), want):
-                        fails.append({"kind": "view_mismatch:amp_periods", "detail": f"period {t} session {s['session']}: remaining_amp_periods {ap}, expected {want}"})
-        else:
-            fails.append({"kind": "infra_wrong", "detail": f"period {t}: infrastructure_info() raised {v.get('infra_err')}"})
+        _view_checks(case, v, exp_infra, fails)
+        _requery_checks(case, v, exp_infra, fails)
+
+    # --- the Interface asked from OUTSIDE schedule() (before run(), between two run()s, after the last one)
+    hs = _stage_horizons(case)
+    for o in obs.get("outside", []):
+        where = f"[outside schedule(), {o['when']}] "
+        if "error" in o:
+            if valid:
+                fails.append({"kind": "view_mismatch:sessions", "detail": f"{where}the Interface raised {o['error']}"})
+            continue
+        _view_checks(case, o, exp_infra, fails, where=where, inside=False)
+        _requery_checks(case, o, exp_infra, fails, where=where)
+        if valid and obs["err"] is None:
+            want_t = 0 if o["when"] == "pre" else hs[-1] if o["when"] == "post" else hs[int(o["when"].split(":")[1])]
+            if o["t"] != want_t:
+                fails.append({"kind": "view_mismatch:current_time", "detail": f"{where}current_time {o['t']}, expected {want_t}"})
+            # no run() is in progress: every session handed over so far has left (or nothing was plugged in yet)
+            if o["sessions"] or o["last_rates"] or o["last_pilots"] or o["active_evs"]:
+                fails.append({"kind": "view_mismatch:sessions", "detail": f"{where}period {o['t']}: sessions {[s['session'] for s in o['sessions']]} "
+                              f"rates {o['last_rates']} pilots {o['last_pilots']} although no EV is connected"})
 
     # --- exact-boundary stream: the generator's verified expectation (remaining == / one ulp above / below 1e-3)
     for sid, b in (case.get("boundary") or {}).items():
@@ -720,6 +969,10 @@ def oracle(case, obs):
     keys = ("err", "iter", "queue_empty", "pending", "resolve", "last_upd", "event_history", "ev_history", "invoked",
             "occ_final", "occ", "pilots", "rates", "peak", "evs", "evse_pilot", "noise_draws", "final_infra")
     for k in keys:
+        if not _same(S_json(obs.get(k)), S_json(clean.get(k))):
+            fails.append({"kind": "isolation_broken", "detail": f"{k}: with vandalism {_short(obs.get(k))} without {_short(clean.get(k))}"})
+            break
+    for k in ("stops", "outside"):
         if not _same(S_json(obs.get(k)), S_json(clean.get(k))):
             fails.append({"kind": "isolation_broken", "detail": f"{k}: with vandalism {_short(obs.get(k))} without {_short(clean.get(k))}"})
             break
@@ -791,7 +1044,118 @@ def corpus():
     out.append({"stations": two, "constraint": {"limit": 64.0}, "sessions": [_s("a", "S0", 0, 9)], "recomputes": [],
                 "period": 5, "max_recompute": 2, "noise": [], "malformed": "sched_fail",
                 "sched": {"type": "scripted", "default": [["S0", [16.0]]], "script": [{"t": 4, "fail": True}]}})
+    # ignored-type events (base acnsim.Event, user subclasses with default / finite precedence) in the periods of a
+    # plug-in (1), an unplug (6), a RecomputeEvent (9), alone (3), and after everything else (12: extends the run)
+    oth = [{"t": 1, "kind": "base", "when": "ctor"}, {"t": 6, "kind": "sub", "when": "ctor"}, {"t": 9, "kind": "sub", "when": "added"},
+           {"t": 3, "kind": "base", "when": "added"}, {"t": 12, "kind": "prec", "prec": 5, "when": "ctor"}]
+    for mr in (None, 1, 3):
+        out.append({"stations": two, "constraint": {"limit": 64.0}, "sessions": [_s("x", "S0", 1, 6)], "recomputes": [9],
+                    "period": 5, "max_recompute": mr, "noise": [], "sched": sched, "others": oth})
+        out.append({"stations": two, "constraint": {"limit": 64.0}, "sessions": [_s("x", "S0", 1, 6), _s("y", "S1", 6, 8)], "recomputes": [9],
+                    "period": 5, "max_recompute": mr, "noise": [], "sched": sched, "pre_query": bool(mr),
+                    "others": [{"t": 6, "kind": "prec", "prec": p, "when": "ctor"} for p in (-1, 5, 15, 25)] + oth[:3]})
+    # the Interface asked before run() with an arrival in period 0; a finished simulation extended by further
+    # events and resumed, with an arrival exactly in the period where the first run() stopped (and one later)
+    for mr in (None, 1, 3):
+        out.append({"stations": two, "constraint": {"limit": 64.0}, "sessions": [_s("a", "S0", 0, 4), _s("b", "S1", 2, 5)], "recomputes": [],
+                    "period": 5, "max_recompute": mr, "noise": [], "sched": sched, "pre_query": True})
+        out.append({"stations": two, "constraint": {"limit": 64.0},
+                    "sessions": [_s("a", "S0", 1, 4), _s("b", "S1", 5, 8), _s("c", "S0", 5, 7), _s("d", "S0", 11, 13)],
+                    "recomputes": [10], "period": 5, "max_recompute": mr, "noise": [], "sched": sched, "splits": [5, 9],
+                    "others": [{"t": 8, "kind": "base", "when": "ctor"}] if mr else []})
+    # the Simulator constructed with an EMPTY queue, asked, then given its events
+    out.append({"stations": two, "constraint": None, "sessions": [_s("a", "S0", 0, 3), _s("b", "S1", 1, 2)], "recomputes": [2],
+                "period": 5, "max_recompute": 2, "noise": [], "sched": sched, "splits": [0], "pre_query": True})
     return out
+
+
+def _add_others(rng, case):
+    """1-4 events of a type the simulator has no handler for: mostly in the period of a plug-in / unplug /
+    RecomputeEvent (where they are processed last unless they carry a finite precedence), some alone, some after
+    the last event the simulator reacts to (they extend the run)"""
+    ts = _known_ts(case)
+    hi = max(ts + [3])
+    out = list(_others(case))
+    for _ in range(rng.choice([1, 1, 2, 3, 4])):
+        q = rng.random()
+        if q < 0.55 and ts:
+            t = rng.choice(ts)
+        elif q < 0.7:
+            t = hi + rng.choice([1, 2, 5])
+        else:
+            t = rng.randint(0, hi)
+        o = {"t": t, "kind": rng.choice(["base", "base", "sub", "sub", "prec"]), "when": "ctor" if rng.random() < 0.7 else "added"}
+        if o["kind"] == "prec":
+            o["prec"] = rng.choice([-1, 5, 15, 25])
+        out.append(o)
+    case["others"] = out
+    return case
+
+
+def _shift_from(case, T, delta):
+    """move every event with timestamp >= T down by delta periods"""
+    for s in case["sessions"]:
+        if s["arrival"] >= T:
+            s["arrival"] -= delta
+            s["departure"] -= delta
+            if s.get("est") is not None:
+                s["est"] -= delta
+    case["recomputes"] = [r - delta if r >= T else r for r in case.get("recomputes", [])]
+    for o in _others(case):
+        if o["t"] >= T:
+            o["t"] -= delta
+
+
+def _stage(rng, case, late=False):
+    """run() in stages: the events from a threshold on are withheld and added to the queue of the FINISHED
+    simulation, which is then resumed.  Either a threshold the layout admits (nobody connected across it), with
+    the later part moved so that it starts exactly in the period where the first run() stops in half of the
+    cases, or a second wave of sessions appended after everything else; T = 0: constructed with an empty queue.
+    late=True (malformed stream): a threshold inside the history, the additions are late events."""
+    arr = sorted(set(s["arrival"] for s in case["sessions"]) | set(int(r) for r in case.get("recomputes", [])))
+    if late:
+        if len(arr) >= 2:
+            case["splits"] = [rng.choice(arr[1:])]
+            if staging_ok(case):
+                case.pop("splits")
+            else:
+                case["malformed"] = "late_added"
+        return case
+    if rng.random() < 0.12:
+        case["splits"] = [0]
+        return case
+    cands = []
+    for T in arr[1:]:
+        c2 = dict(case, splits=[T])
+        if T > 0 and staging_ok(c2) and any(t < T for t in _known_ts(case, True)):
+            cands.append(T)
+    if cands and rng.random() < 0.6:
+        T = rng.choice(cands)
+        h1 = _stage_horizons(dict(case, splits=[T]))[0]
+        if rng.random() < 0.5 and T > h1:
+            _shift_from(case, T, T - h1)
+            T = h1
+        case["splits"] = [T]
+        if len(cands) > 1 and rng.random() < 0.3:
+            T2 = rng.choice(cands)
+            c2 = dict(case, splits=sorted({T, T2}))
+            if staging_ok(c2):
+                case["splits"] = sorted({T, T2})
+        return case
+    T0 = max([0] + _known_ts(case, True)) + 1 if _known_ts(case, True) else 0
+    start = T0 + rng.choice([0, 0, 0, 1, 3])
+    cursor = {}
+    for k in range(rng.choice([1, 1, 2, 3])):
+        st = rng.choice(case["stations"])["id"]
+        a = cursor.get(st, start if k == 0 else start + rng.choice([0, 0, 1, 2]))
+        d = a + rng.choice([1, 2, 3, 5])
+        cursor[st] = d + rng.choice([0, 0, 1])
+        case["sessions"].append({"session": f"w{k}", "station": st, "arrival": a, "departure": d,
+                                 "requested": round(rng.uniform(0.05, 12), 3), "batt": S.gen_battery(rng), "est": None})
+    if rng.random() < 0.4:
+        case["recomputes"] = list(case.get("recomputes", [])) + [start + rng.choice([0, 1, 4])]
+    case["splits"] = [T0]
+    return case
 
 
 def _retime(rng, case):
@@ -967,7 +1331,17 @@ def generate(rng, n, tier):
             c = S.gen_case(rng, real_algos=True, max_sessions=10)
         else:
             c = S.gen_case(rng, max_sessions=18 if tier != "quick" else 12)
-        out.append(_retime(rng, c))
+        c = _retime(rng, c)
+        # C05's scenario classes beyond one run() over plug-in / unplug / recompute events
+        if r in (1, 5, 9, 11, 14, 18, 21, 23) or (r == 13 and rng.random() < 0.5):
+            c = _add_others(rng, c)
+        if r in (3, 5, 10, 17, 22, 23):
+            c["pre_query"] = True
+        if r in (0, 6, 9, 12, 20, 22) and not c.get("malformed"):
+            c = _stage(rng, c)
+        elif r == 24 and not c.get("malformed"):
+            c = _stage(rng, c, late=True)
+        out.append(c)
     return out
 
 
@@ -979,7 +1353,7 @@ def search(rng, n):
 
 
 def nontrivial(case, obs):
-    if not S.is_valid_layout(case) or obs.get("err") is not None:
+    if not is_valid(case) or obs.get("err") is not None:
         return False
     inv = obs["invoked"]
     evs = {s["arrival"] for s in case["sessions"]} | {s["departure"] for s in case["sessions"]} | set(case.get("recomputes", []))
@@ -1033,7 +1407,48 @@ def features(case, obs):
         f.append("late_event")
     if any(s["arrival"] in {x["departure"] for x in case["sessions"]} for s in case["sessions"]):
         f.append("plug_and_unplug_same_period")
-    return f
+    oth = _others(case)
+    f.append(f"ignored_events={min(len(oth), 3)}")
+    if oth:
+        known = {}
+        for s in case["sessions"]:
+            known.setdefault(s["arrival"], set()).add("Plugin")
+            known.setdefault(s["departure"], set()).add("Unplug")
+        for r in case.get("recomputes", []):
+            known.setdefault(int(r), set()).add("Recompute")
+        for o in oth:
+            for k in sorted(known.get(int(o["t"]), ())):
+                f.append(f"ignored_event_in_period_of_{k}")
+            if int(o["t"]) not in known:
+                f.append("ignored_event_alone_in_period")
+        eh = obs.get("event_history", [])
+        for i, e in enumerate(eh):
+            if e[1] in KNOWN_TYPES:
+                continue
+            same = [x for x in eh if x[0] == e[0] and x[1] in KNOWN_TYPES]
+            if same and (i + 1 == len(eh) or eh[i + 1][0] != e[0]) and i > 0 and eh[i - 1][0] == e[0]:
+                f.append("ignored_event_processed_last_in_period_with_known_event")
+            if same and i + 1 < len(eh) and eh[i + 1][0] == e[0] and eh[i + 1][1] in KNOWN_TYPES:
+                f.append("ignored_event_processed_before_known_event")
+        if max(int(o["t"]) for o in oth) > max(_known_ts(case) + [-1]):
+            f.append("ignored_event_extends_run")
+        f.append("ignored_when=" + "+".join(sorted({o.get("when", "ctor") for o in oth})))
+        f.append("ignored_kinds=" + "+".join(sorted({o["kind"] for o in oth})))
+    if case.get("pre_query"):
+        f.append("interface_asked_before_run")
+        if any(s["arrival"] == 0 for s in case["sessions"]):
+            f.append("interface_asked_before_run_and_arrival_in_period_0")
+    if _splits(case):
+        f.append(f"staged_runs={len(_splits(case)) + 1}")
+        f.append("staging_ok=" + str(staging_ok(case)))
+        hs = _stage_horizons(case)
+        if any(s["arrival"] == h for s in case["sessions"] for h in hs[:-1]):
+            f.append("arrival_in_period_where_previous_run_stopped")
+        if _splits(case)[0] == 0:
+            f.append("constructed_with_empty_queue")
+    f.append(f"model={model_mode(case, obs)}")
+    f.append(f"outside_queries={min(len(obs.get('outside', [])), 4)}")
+    return sorted(set(f)) if oth else f
 
 
 def shrink(case, kind):
@@ -1048,7 +1463,13 @@ def shrink(case, kind):
     changed = True
     while changed:
         changed = False
-        for key in ("sessions", "recomputes"):
+        for key in ("splits", "pre_query"):
+            if cur.get(key):
+                c2 = copy.deepcopy(cur)
+                c2.pop(key)
+                if bad(c2):
+                    cur, changed = c2, True
+        for key in ("sessions", "recomputes", "others"):
             i = 0
             while i < len(cur.get(key, [])):
                 c2 = copy.deepcopy(cur)
